@@ -175,6 +175,12 @@ def prog(style: int, kind: int, level: int, k: int, cos: bool,
             assume(0 <= i <= fresh)
             v = OBJS[pick(i, 0, fresh)]
             cur = [vv for _, vv in model]
+            if level == 0:
+                # the class-level Parameter is the one being mutated: an instance whose per-instance Parameter object was
+                # created earlier (by an earlier assignment) keeps its own objects by design, so every assignment uses
+                # a fresh instance, which is governed by the class-level objects as they are now
+                with untraced():
+                    inst = P()
             prev = inst.s
             try:
                 inst.s = (v if kind == 0 else [v])
